@@ -25,13 +25,20 @@ func init() {
 			for op := 0; op <= 3; op++ {
 				jobs = append(jobs, cj("op", op, "fx", 0), cj("op", op, "fy", 2, "fx", 1))
 			}
+			// the real Sqrt (float64 seed + Newton iteration, no stub) on concrete operands: all stores of the
+			// iteration against the ownership tags, oneHalf/three and the operand compared afterwards
+			for _, c := range [][4]int{{5, 2, 0, 19}, {19, 3, 0, 19}, {40, 2, 0, 19}, {40, 20, -1, 19}, {100, 7, 5, 3}, {33, 1234567, -3, 60}} {
+				j := J("H_C18_sqrtreal", o, "p", c[0], "v", c[1], "e", c[2], "px", c[3])
+				j.Confine = true
+				jobs = append(jobs, j)
+			}
 			if tier == "thorough" {
 				jobs = append(jobs, cj("op", 2, "wx", 2, "wy", 2, "kt", 2), cj("op", 2, "wx", 3, "wy", 2, "kt", 2), cj("op", 0, "d", 19, "wx", 2, "wy", 2), cj("op", 5, "wx", 1, "wy", 1, "zf", 1, "zcap", 3))
 			}
 			return jobs
 		},
 		Bounds: map[string]string{
-			"quick":    "Add, Sub (aligned and shifted), Mul (1x1, 2x1), x*x through decBasicSqr (threshold lowered so that the pool path is taken), Quo by a one-word divisor, FMA, Cmp, Int64/Uint64/Int/IsInt/MinPrec, GobEncode, Sqrt (prologue/epilogue, stubbed iteration), Set/Neg/Abs/SetMantExp/MantExp/Copy, special-value operands: every store checked against the ownership tags; every sync.Pool.Get answers nil, recycled (contents havocked) and foreign buffer; operand snapshots (fields and all words up to capacity) compared afterwards. 1-2 word operands, all values.",
+			"quick":    "Add, Sub (aligned and shifted), Mul (1x1, 2x1), x*x through decBasicSqr (threshold lowered so that the pool path is taken), Quo by a one-word divisor, FMA, Cmp, Int64/Uint64/Int/IsInt/MinPrec, GobEncode, Sqrt (prologue/epilogue with a stubbed iteration for all operand values; the real float64-seeded Newton iteration for six concrete operands at precisions 5..100), Set/Neg/Abs/SetMantExp/MantExp/Copy, special-value operands: every store checked against the ownership tags; every sync.Pool.Get answers nil, recycled (contents havocked) and foreign buffer; operand snapshots (fields and all words up to capacity) compared afterwards. 1-2 word operands, all values.",
 			"thorough": "plus Karatsuba multiplication (pool buffer of 3k words) at 2x2 and 3x2, wider Add, dirty receiver for FMA.",
 		},
 		Outside: []string{
